@@ -1,6 +1,7 @@
 package main
 
 import (
+	"go/types"
 	"fmt"
 	"sort"
 	"strings"
@@ -369,15 +370,16 @@ func windowSize(c *Ctx, r *Report, rule string) {
 			}
 		}
 		for _, b := range g.Blocks {
-			cond, tb, _ := condEdge(b)
-			bo, ok := cond.(*ssa.BinOp)
-			if !ok || bo.Op.String() != "==" || !blockOrDom(tb, call.Block()) || len(tb.Preds) != 1 {
+			bo, _, eq := eqEdges(b) // `cached+1 == height` in either orientation, `!=` with the branches swapped
+			if bo == nil || !blockOrDom(eq, call.Block()) || len(eq.Preds) != 1 {
 				continue
 			}
-			if add, ok := bo.X.(*ssa.BinOp); ok && add.Op.String() == "+" && typePath(add.X) == "node.Pegnetd.LastAveragesHeight" {
-				if k, ok := add.Y.(*ssa.Const); ok && k.Int64() == 1 {
-					if paramOrSpill(bo.Y, g) && innermostLoop(g, call.Block()) == nil {
-						okk = true
+			for _, pair := range [][2]ssa.Value{{bo.X, bo.Y}, {bo.Y, bo.X}} {
+				if add, ok := pair[0].(*ssa.BinOp); ok && add.Op.String() == "+" && typePath(add.X) == "node.Pegnetd.LastAveragesHeight" {
+					if k, ok := add.Y.(*ssa.Const); ok && k.Int64() == 1 {
+						if paramOrSpill(pair[1], g) && innermostLoop(g, call.Block()) == nil {
+							okk = true
+						}
 					}
 				}
 			}
@@ -391,17 +393,28 @@ func windowSize(c *Ctx, r *Report, rule string) {
 	}
 	// reload path: start height = height - AveragePeriod + 1
 	startOK := false
-	allInstrs(g, func(ins ssa.Instruction) {
+	startScan := func(ins ssa.Instruction) {
 		bo, ok := ins.(*ssa.BinOp)
 		if !ok || bo.Op.String() != "+" {
 			return
 		}
 		if k, ok := bo.Y.(*ssa.Const); ok && k.Int64() == 1 {
-			if sub, ok := bo.X.(*ssa.BinOp); ok && sub.Op.String() == "-" && sliceHas(sub.Y, func(v ssa.Value) bool { return valuePath(v) == "node.AveragePeriod" }) && sliceHas(sub.X, func(v ssa.Value) bool { p, ok := v.(*ssa.Parameter); return ok && p.Name() == "height" }) {
+			if sub, ok := bo.X.(*ssa.BinOp); ok && sub.Op.String() == "-" && sliceHas(sub.Y, func(v ssa.Value) bool { return valuePath(v) == "node.AveragePeriod" }) && sliceHas(sub.X, func(v ssa.Value) bool {
+				// the requested height: the uint32 parameter of GetPegNetRateAverages, or of a helper it hands it to
+				p, ok := v.(*ssa.Parameter)
+				if !ok {
+					return false
+				}
+				b, isB := p.Type().Underlying().(*types.Basic)
+				return isB && b.Kind() == types.Uint32
+			}) {
 				startOK = true
 			}
 		}
-	})
+	}
+	for _, f := range c.family(g) { // GetPegNetRateAverages, its closures, helpers split off from it
+		allInstrs(f, startScan)
+	}
 	if !startOK {
 		bad = append(bad, "the reload path does not start at height - AveragePeriod + 1")
 	}
